@@ -32,12 +32,26 @@ def collect(chk, families, paths_q=30, paths_t=400, walks_q=8, walks_t=200, dept
 
 def conform_reducer(chk, items, name="reducer"):
     """Real reducer transitions vs Reducer.tla (evidence; drift is a note, never a verdict)."""
-    if chk.quick and len(items) > 160:
+    cap = 160 if chk.quick else 1600
+    if len(items) > cap:
         rng = random.Random(chk.seed + 7)
-        items = rng.sample(items, 160)
-    batch = et.reducer_batch([(p, tr) for (_l, p, _e, tr, _s) in items])
-    verdicts, res = tracecheck.observe(chk, "engine/TraceReducer.tla", "engine/TraceReducer.cfg", batch, name=name,
-                                       workers=8)
+        items = rng.sample(items, cap)
+    # one TLC run per chunk (a single run over thousands of traces spends its time in the JSON parse of the batch)
+    from concurrent.futures import ThreadPoolExecutor
+    size = 200
+    chunks = [items[i:i + size] for i in range(0, len(items), size)] or [[]]
+    batches = [et.reducer_batch([(p, tr) for (_l, p, _e, tr, _s) in ch]) for ch in chunks]
+
+    def one(j):
+        return tracecheck.observe(chk, "engine/TraceReducer.tla", "engine/TraceReducer.cfg", batches[j],
+                                  name=name if len(chunks) == 1 else "%s_%d" % (name, j), workers=8 if len(chunks) == 1 else 4)
+    with ThreadPoolExecutor(max_workers=4) as ex:
+        outs = list(ex.map(one, range(len(chunks))))
+    verdicts = {}
+    for j, (vd, _res) in enumerate(outs):
+        for i, v in vd.items():
+            verdicts[j * size + i] = v
+    batch = {"traces": [t for b in batches for t in b["traces"]]}
     ok = sum(1 for v in verdicts.values() if v[0] == "ok")
     nticks = sum(len(t["ticks"]) for t in batch["traces"])
     drift = [(i, v) for i, v in verdicts.items() if v[0] != "ok"]
